@@ -186,7 +186,7 @@ pub fn family(cfg: &Cfg) -> Vec<Item> {
     ];
     for s in a {
         if let Ok(e) = opening_hours_syntax::parse(s) {
-            items.push(Item { text: s.to_string(), feats: features::of_expr(&e), full: true });
+            items.push(Item { text: s.to_string(), feats: features::of_expr(&e), full: true, deep: true });
         }
     }
     let mut seen = std::collections::HashSet::new();
@@ -197,14 +197,14 @@ pub fn family(cfg: &Cfg) -> Vec<Item> {
         }
         if let Some(text) = canon(e) {
             if seen.insert(text.clone()) {
-                items.push(Item { text, feats: features::of_expr(e), full: false });
+                items.push(Item { text, feats: features::of_expr(e), full: false, deep: true });
             }
         }
     }
     if !cfg.quick() {
         for s in al::corpus(&cfg.repo) {
             if let Ok(e) = opening_hours_syntax::parse(&s) {
-                items.push(Item { text: s, feats: features::of_expr(&e), full: false });
+                items.push(Item { text: s, feats: features::of_expr(&e), full: false, deep: true });
             }
         }
     }
@@ -253,7 +253,7 @@ pub fn replay(cfg: &Cfg, case: &Value) -> Vec<Violation> {
     let mut acc = Acc::new();
     let Some(text) = case.get("expr").and_then(|v| v.as_str()) else { return vec![] };
     let c = ctx::by_name(&cfg.repo, case.get("ctx").and_then(|v| v.as_str()).unwrap_or("empty"));
-    let it = Item { text: text.to_string(), feats: features::of_str(text), full: true };
+    let it = Item { text: text.to_string(), feats: features::of_str(text), full: true, deep: true };
     let (Some(t), Some(bm)) = (case.get("t").and_then(|v| v.as_str()).and_then(parse_dt), case.get("bound_minutes").and_then(|v| v.as_i64())) else {
         check_item(&it, &c, true, &mut acc);
         return acc.groups.into_values().flat_map(|g| g.examples).collect();
